@@ -473,3 +473,19 @@ def main(run):
 
     run.extra_cov["c05_stats"] = stats
     correspond_robust(run, terms, cases, shard=run.scale(150, 400))
+
+    # only runs when an obligation or the correspondence broke and the oracle has no failing input yet:
+    # more oracle-only random calls (the terms they append are not evaluated)
+    def search(run_):
+        import time
+        t_end = time.time() + run_.scale(45, 300)
+        while time.time() < t_end and not run_.oracle_viol:
+            n = rng.randint(1, 30)
+            nobj = rng.choice([2, 3, 4])
+            vals = rand_values(n, nobj)
+            w = rand_weights(nobj)
+            for k in range(0, n + 3):
+                for nd in ("standard", "log"):
+                    sel_case(w, vals, k, nd)
+            crowd_case(w, vals[:rng.randint(0, n)])
+    run.search_fn = search
